@@ -39,13 +39,13 @@ CHECK = {
              "the channel peer is offline when our half is due and connects later; proofs premature by up to two blocks). After every delivery (to quiescence) the graph projection (channels with keys/capacity/outpoint, both policies with timestamps, "
              "nodes) and the path-finding cache are diffed against the previous one and every change must be justified by a delivered authentic and fresh "
              "message; every message sent to a peer must be one that was accepted; a channel_announcement the node assembled itself must carry four signatures that verify, "
-             "both as read back from the graph and as sent to any peer. Store-race arm (1 run in 16): 2-3 caller goroutines run 1-3 graph-store calls each against "
+             "both as read back from the graph and as sent to any peer; on bbolt every relayed channel_update must have been durably stored at some point (a second store object on the same file reads the policies after every commit of the graph database). Store-race arm (1 run in 16): 2-3 caller goroutines run 1-3 graph-store calls each against "
              "2-3 channels with reject/channel caches of 1, 2 or 50 entries, warm or cold; every switch between them happens at the entry or exit of a database "
              "transaction and is chosen by the tape; afterwards the live store's HasChannelEdge answer (existence, zombie flag, both last-update times - what every freshness "
              "check compares an incoming update with) must equal the answer of a fresh store opened on the same file; in half of these runs the updates go through graph.Builder.UpdateEdge with timestamps fixed in advance (an older update can be in flight next to a newer one) and the stored policy must end at the newest timestamp UpdateEdge accepted. non-trivial = at least one channel entered the graph and at least one "
              "corrupted or stale message was delivered afterwards; distinct = distinct event-trace hash",
         states_measure="distinct (channels in graph, policies set, nodes announced, buffered premature messages, banned peers) tuples",
-        expected_probes=["race_schedule_choices", "race_coherence_checks", "race_builder_freshness_checks", "probe_race_goroutine_waited_for_a_lock", "probe_race_batch_runner_goroutines", "fault_wire_corruption", "fault_funding_spent", "fault_db_write_failed", "fault_long_sleep_past_prune_interval", "probe_zombie_channel_resurrected", "probe_buffered_update_applied_later",
+        expected_probes=["relay_applied_checks", "race_schedule_choices", "race_coherence_checks", "race_builder_freshness_checks", "probe_race_goroutine_waited_for_a_lock", "probe_race_batch_runner_goroutines", "fault_wire_corruption", "fault_funding_spent", "fault_db_write_failed", "fault_long_sleep_past_prune_interval", "probe_zombie_channel_resurrected", "probe_buffered_update_applied_later",
                          "probe_buffered_announcement_applied_later", "probe_future_height_msg_buffered", "probe_peer_disconnected_by_ban",
                          "graph_chan_added", "graph_policy_replaced", "graph_node_applied", "relayed_chan_ann", "relayed_chan_update", "relayed_node_ann",
                          "graph_own_chan_added", "graph_own_proof_added", "relayed_own_chan_ann", "probe_own_proof_completed_by_local_half",
